@@ -238,6 +238,21 @@ pub fn rec_build(a: &Args, out: &mut Out) {
         let mut b = MessageBuilder::new();
         record_build(&mut b, &m, out, json!({}));
     }
+    // messages obtained by decoding hostile CRC-valid frames are Message values too
+    let hostile = a.num("hostile", 8) as usize;
+    for &num in &nums {
+        let mut frames = crate::drv_decode::hostile_frames(&mut r, num, hostile);
+        frames.extend(crate::drv_decode::structured_hostile(&mut r, num).into_iter().take(hostile));
+        for (f, _) in frames {
+            if let Ok(Some(m)) = guarded(|| decode_frame(&f)) {
+                if m.number().is_some() {
+                    out.emit(json!({"ev": "NewBuilder"}));
+                    let mut b = MessageBuilder::new();
+                    record_build(&mut b, &m, out, json!({"source": "decoded-hostile"}));
+                }
+            }
+        }
+    }
 }
 
 /// one build_generated_message call (the library's test generator shares the builder's buffer and prologue),
